@@ -21,6 +21,7 @@ class Ctx:
         import anchors
         self.A = anchors.get(self.F)
         self.M = model.build(self.F)
+        self.A.classify_flag_methods(self.M["make"])
         self._paths = {}
         self._cg = None
 
